@@ -53,6 +53,7 @@ const (
 	GASPRICE, BLOCKHASH, COINBASE        = 0x3a, 0x40, 0x41
 	TIMESTAMP, NUMBER, DIFFICULTY        = 0x42, 0x43, 0x44
 	GASLIMIT, CHAINID, SELFBALANCE       = 0x45, 0x46, 0x47
+	BASEFEE, BLOBHASH, BLOBBASEFEE       = 0x48, 0x49, 0x4a
 	POP, MLOAD, MSTORE, SLOAD, SSTORE    = 0x50, 0x51, 0x52, 0x54, 0x55
 	GAS, JUMPDEST                        = 0x5a, 0x5b
 	DUP1, LOG0, LOG1, LOG2               = 0x80, 0xa0, 0xa1, 0xa2
@@ -115,8 +116,11 @@ func GenRuntime(t *rapid.T, universe []string, label string) ([]byte, string) {
 			a.PushU(uint64(rapid.IntRange(0, 255).Draw(t, label+"_topic"))).PushU(0).PushU(0).Op(LOG1)
 			desc = append(desc, "LOG1")
 		case "env":
-			op := rapid.SampledFrom([]byte{TIMESTAMP, NUMBER, COINBASE, DIFFICULTY, GASLIMIT, CHAINID, GASPRICE, ORIGIN, CALLER, GAS, SELFBALANCE}).Draw(t, label+"_envop")
+			op := rapid.SampledFrom([]byte{TIMESTAMP, NUMBER, COINBASE, DIFFICULTY, GASLIMIT, CHAINID, GASPRICE, ORIGIN, CALLER, GAS, SELFBALANCE, BASEFEE, BLOBBASEFEE, BLOBHASH}).Draw(t, label+"_envop")
 			slot := rapid.IntRange(4, 7).Draw(t, label+"_slot")
+			if op == BLOBHASH {
+				a.PushU(0)
+			}
 			a.Op(op).PushU(uint64(slot)).Op(SSTORE)
 			desc = append(desc, fmt.Sprintf("SSTORE(%d,env %#x)", slot, op))
 		case "balance":
@@ -126,7 +130,13 @@ func GenRuntime(t *rapid.T, universe []string, label string) ([]byte, string) {
 		case "callvalue":
 			to := rapid.SampledFrom(universe).Draw(t, label+"_to")
 			v := rapid.SampledFrom([]uint64{0, 1, 1000, 1000000000000000000}).Draw(t, label+"_val")
-			// CALL(gas, to, value, 0,0,0,0)
+			// CALL(gas, to, value, 0,0,0,0); one in four calls goes to the contract itself (bounded gas: the callee
+			// is this very program)
+			if rapid.IntRange(0, 3).Draw(t, label+"_selfcall") == 0 {
+				a.PushU(0).PushU(0).PushU(0).PushU(0).PushU(v).Op(ADDRESS).PushU(200000).Op(CALL).Op(POP)
+				desc = append(desc, fmt.Sprintf("CALL(self,%d)", v))
+				break
+			}
 			a.PushU(0).PushU(0).PushU(0).PushU(0).PushU(v).PushAddr(to).Op(GAS).Op(CALL).Op(POP)
 			desc = append(desc, fmt.Sprintf("CALL(%s,%d)", to[:8], v))
 		case "create":
